@@ -99,6 +99,7 @@ type verifMultiHistory struct {
 	Chain     bool             `json:"chain"`   // with enum: all attempts on ONE system (the context is built once; sound
 	//                                             for transactional changes, which restore every snap when they fail)
 	EnumOps   []string         `json:"enumOps"` // ... and these backend operations, for every snap
+	EnumEvery int              `json:"enumEvery"` // > 1: only every n-th task index (1, 1+n, ...)
 	Steps     []verifMultiStep `json:"steps"`
 }
 
@@ -660,6 +661,9 @@ func (s *verifMultiSuite) TestVerifMultiHistories(c *check.C) {
 			}
 			for k := 1; k <= n; k++ {
 				if h.Chain && si == 0 && k == 1 {
+					continue
+				}
+				if h.EnumEvery > 1 && (k-1)%h.EnumEvery != 0 {
 					continue
 				}
 				attempt(fmt.Sprintf("%s.s%dk%d", h.ID, si+1, k), []verifMultiFault{{S: si + 1, K: k}})
